@@ -194,8 +194,11 @@ class ExprT:
                 if self.cls_hook is not None:
                     return self.cls_hook(n.args, n.keywords)
                 f = self.cls_name
-            if n.keywords:
-                raise Unsupported(f"keyword arguments in {ast.unparse(n)}")
+            for kw in n.keywords:
+                # evaluate=<bool> only chooses between the unevaluated node and its evaluation: same value
+                if not (kw.arg == "evaluate" and isinstance(kw.value, ast.Constant) and isinstance(kw.value.value, bool)
+                        and f in ("VectorDot", "VectorCross", "VectorMixedProduct", "VectorNorm")):
+                    raise Unsupported(f"keyword arguments in {ast.unparse(n)}")
             args = [self.tr(a) for a in n.args]
             if f == "VectorDot" and len(args) == 2 and all(is_v(a) for a in args):
                 return ("dot", *args)
